@@ -207,6 +207,8 @@ class C04(Prop):
             "seg": gen.segmentation(),
             # an earlier connection in this process (same WebSocket object or another) and how it ended
             "prelude": gen.prelude(),
+            # a second live connection in the same process (interleaved with this one, or blocked in a send)
+            "companion": gen.companion(),
             "deflate": st.sampled_from([0, 0, 1, 1, 2]),
             "client_closing": gen.weighted([(5, st.just(False)), (1, st.just(True))]),
         })
